@@ -381,6 +381,42 @@ static bool more_probe(std::string const& op, Toks& in, Out& impl, Out& ref)
         doc(ref, len <= cap);
         return true;
     }
+    if (op == "exparrow") {
+        // expected::operator->: no check in the header; std::expected requires has_value()
+        auto hasv = in.num() != 0; auto o = in.str();
+        etl::expected<int, long> e = hasv ? etl::expected<int, long>(etl::in_place, 4) : etl::expected<int, long>(etl::unexpect, 7L);
+        if (o == "arrow") { watch(impl, e, [&] { sink = e.operator->() != nullptr; }); }
+        else { watch(impl, e, [&] { sink = static_cast<etl::expected<int, long> const&>(e).operator->() != nullptr; }); }
+        doc(ref, hasv);
+        return true;
+    }
+    if (op == "arrfb") {
+        // array<int, N>::front / back, N in {0, 3}; operator[] of array<int, 0> (executed only where it is checked)
+        auto n = in.num(); auto o = in.str();
+        etl::array<int, 0> a0{}; etl::array<int, 3> a3{1, 2, 3};
+        if (n == 0) {
+            if (o == "idx" || o == "cidx") {
+#if defined(TETL_ENABLE_CONTRACT_CHECKS_SAFE)
+                if (o == "idx") { watch(impl, a0, [&] { sink = a0[0]; }); } else { watch(impl, a0, [&] { sink = static_cast<etl::array<int, 0> const&>(a0)[0]; }); }
+#else
+                impl.tok("skip");   // not executed: etl::unreachable() without the SAFE check (see KF-C05-array-index-only-checked-in-safe-mode)
+#endif
+            }
+            else if (o == "front") { watch(impl, a0, [&] { sink = a0.front(); }); }
+            else if (o == "cfront") { watch(impl, a0, [&] { sink = static_cast<etl::array<int, 0> const&>(a0).front(); }); }
+            else if (o == "back") { watch(impl, a0, [&] { sink = a0.back(); }); }
+            else { watch(impl, a0, [&] { sink = static_cast<etl::array<int, 0> const&>(a0).back(); }); }
+            doc(ref, false);
+        } else {
+            if (o == "front") { watch(impl, a3, [&] { sink = a3.front(); }); }
+            else if (o == "cfront") { watch(impl, a3, [&] { sink = static_cast<etl::array<int, 3> const&>(a3).front(); }); }
+            else if (o == "back") { watch(impl, a3, [&] { sink = a3.back(); }); }
+            else if (o == "cback") { watch(impl, a3, [&] { sink = static_cast<etl::array<int, 3> const&>(a3).back(); }); }
+            else { watch(impl, a3, [&] { sink = a3[0]; }); }
+            doc(ref, true);
+        }
+        return true;
+    }
     if (op == "fmt") {
         // detail::format_escaped_sequences(text, ctx): what format_to runs on every slice of text between arguments
         auto chars = in.list();
@@ -400,7 +436,7 @@ static bool more_probe(std::string const& op, Toks& in, Out& impl, Out& ref)
 bool vh::run_case(std::string const& op, Toks& in, Out& impl, Out& ref)
 {
     if (op == "str") { return str_probe(in, impl, ref); }
-    if (op == "sset" || op == "cpy" || op == "linalg" || op == "sstride" || op == "bsstr" || op == "tostr" || op == "fmt") { return more_probe(op, in, impl, ref); }
+    if (op == "sset" || op == "cpy" || op == "linalg" || op == "sstride" || op == "bsstr" || op == "tostr" || op == "fmt" || op == "exparrow" || op == "arrfb") { return more_probe(op, in, impl, ref); }
     if (op == "vec") { vec_probe(in, impl, ref); return true; }
     if (op == "ivec") {
         auto cap = in.num(); auto k = in.num(); auto o = in.str(); auto arg = in.sz();
@@ -463,6 +499,14 @@ bool vh::run_case(std::string const& op, Toks& in, Out& impl, Out& ref)
         etl::optional<int> x; if (engaged) { x = 5; }
         int target = 3;
         etl::optional<int&> r; if (engaged) { r = etl::optional<int&>(target); }
+        if (o == "arrow" || o == "carrow" || o == "refarrow") {
+            // documented as total: "The pointer is null if the optional is empty" — must never reach the handler
+            if (o == "arrow") { watch(impl, x, [&] { sink = x.operator->() != nullptr; }); }
+            else if (o == "carrow") { watch(impl, x, [&] { sink = static_cast<etl::optional<int> const&>(x).operator->() != nullptr; }); }
+            else { watch(impl, r, [&] { sink = r.operator->() != nullptr; }); }
+            doc(ref, true);
+            return true;
+        }
         if (o == "ref") { watch(impl, r, [&] { sink = *r; }); }
         else if (o == "cderef") { watch(impl, x, [&] { sink = *static_cast<etl::optional<int> const&>(x); }); }
         else if (o == "rderef") { watch(impl, x, [&] { sink = *etl::move(x); }); }
